@@ -351,4 +351,21 @@ def link_relation(repo: Repo) -> RuleRun:
 
 link_relation.rule_id = "C13.LINK-RELATION"
 
-RULES = [rollback, probe_restore, who_writes_points, backport_rule, warning_filter, affine_kinds, link_relation]
+def owns_geometry(repo: Repo) -> RuleRun:
+    """A clamp's manifold and a link's reference points are fixed when they are created: the constructors keep private copies of the coordinates they are given."""
+    from ..alias import escaping_view_rule
+
+    return escaping_view_rule(repo, PROP, "C13.OWNS-GEOMETRY", ('optimize.',))
+
+
+owns_geometry.rule_id = "C13.OWNS-GEOMETRY"
+
+def angle_dimension(repo: Repo) -> RuleRun:
+    from ..dims import angle_dimension_rule
+
+    return angle_dimension_rule(repo, PROP, "C13.ANGLE-DIMENSION")
+
+
+angle_dimension.rule_id = "C13.ANGLE-DIMENSION"
+
+RULES = [rollback, probe_restore, who_writes_points, backport_rule, warning_filter, affine_kinds, link_relation, owns_geometry, angle_dimension]
